@@ -85,10 +85,10 @@ static void run_case(const Case &cs, const std::string &key, int explore) {   //
                 std::string v = run_env(c2, e, &pf, true);
                 if (!v.empty() && bad.empty()) bad = v;
                 return vf::hstr(v);
-            }, explore, 60000, [&](const std::vector<int> &ch, uint64_t) { if (!bad.empty() && badc.empty()) badc = ch; }, true);
+            }, explore, explore >= 2 ? 1500000 : 60000, [&](const std::vector<int> &ch, uint64_t) { if (!bad.empty() && badc.empty()) badc = ch; }, true);
             vf::S().states += st.states; vf::S().transitions += st.transitions + st.executions;
             vf::count("explored_scenarios"); vf::count("executions", st.executions);
-            if (st.capped) { vf::count("explore_capped"); vf::cap("bounded DFS hit the per-scenario execution cap (60000) on some cases"); }
+            if (st.capped) { vf::count("explore_capped"); vf::cap("bounded DFS hit the per-scenario execution cap (60000 for bound 1, 1500000 for bound 2) on some cases"); }
             if (!bad.empty()) {
                 int same = 0; for (int q = 0; q < 2; ++q) { vs::begin_execution(); std::string v = run_env(c2, e, &badc, true); if (v == bad) ++same; }
                 vf::S().traces_validated += same;
